@@ -28,6 +28,8 @@ CHECKS = {
    text="Per generated history every I/O step of the journaled fault-free run is a crash point (process death with every 4 KiB cut of the write in flight; power loss = files rolled back to their last synced image). Each distinct image is recovered by the real open and must contain every acknowledged commit; recovered databases are driven on with further commits and reopens, and a subset is journaled and crashed again (nested rounds, depth 3).", ref="§3 C01"),
  "C02": dict(cat="fault_enumeration", tech="deterministic simulation with fault injection: crash-image enumeration, committed-prefix oracle",
    text="Same images as C01 (shared engine, separate attribution): open must succeed and the dump must equal the model after the last acknowledged operation or after the operation in flight — no partial transaction, no gap, no invariant violation (dangling edge, out/in asymmetry, unresolvable label); nested rounds included.", ref="§3 C02"),
+ "C03": dict(cat="exploration", tech="deterministic simulation: seeded cooperative scheduler over real threads (writer vs snapshot readers), history check with global event numbers",
+   text="One writer (commits, abandoned transactions, compaction, index creation) and 1-3 readers that take snapshots and re-read them repeatedly, including long-lived ones; every lock acquisition, atomic access and I/O step is a seeded scheduling decision (random with varying switch probability, PCT). Each snapshot must equal exactly one model state between the operations acknowledged before and begun before its creation, and never change afterwards.", ref="§3 C03"),
  "C04": dict(cat="exploration", tech="deterministic simulation: model-based lifecycle histories (reopen events) on the simulated disk, fault-free configuration",
    text="Seeded L1 histories with close()/drop/reopen events at arbitrary positions (mixed with compaction, index creation, abandoned transactions); a full dump through every read interface is compared with the reference model before and after each reopen, later discrepancies are attributed by re-running the twin history without the events.", ref="§3 C04"),
  "C05": dict(cat="exploration", tech="deterministic simulation: model-based lifecycle histories (compaction/checkpoint events), fault-free configuration",
@@ -38,10 +40,15 @@ CHECKS = {
    text="Transactions abandoned (dropped) after a PRNG-chosen prefix containing every write kind; dump, index lookups and vector search must equal the model without the abandoned transaction immediately, after further commits and after reopen.", ref="§3 C07"),
  "C08": dict(cat="fault_enumeration", tech="deterministic simulation with fault injection: injected I/O errors (EIO / partial write / ENOSPC / failed fsync) at every I/O step of each commit, compaction, index creation and close",
    text="Every I/O step inside every target operation of a generated history is failed once per error kind in a fresh deterministic re-execution; the failed operation must be invisible in the process, later transactions must be accepted, visible and durable, after reopen the failed transaction is wholly present or wholly absent, open succeeds and a further commit survives another reopen.", ref="§3 C08"),
+ "C09": dict(cat="exploration", tech="deterministic simulation: seeded cooperative scheduler over real threads calling the C API auto-commit entry point",
+   text="2-4 client threads issue read-modify-write increments, conditional creates (MERGE) and copy statements on shared nodes through ndb_execute_write under seeded schedules; final counters must equal the number of acknowledged increments and each merged key must exist exactly once.", ref="§3 C09"),
  "C17": dict(cat="fault_enumeration", tech="deterministic simulation with fault injection: stored-byte faults on the log tail (every truncation offset, zero/random/length-field/oversize tails, unfinished transaction, bit flips) followed by write + reopen rounds",
    text="Every truncation offset inside the last transaction (and every stride-th of the rest of the tail region) plus appended garbage tails and bit flips; each mutated log is opened, dumped against the state after the last completely written transaction, written to again and reopened twice.", ref="§3 C17"),
  "C28": dict(cat="exploration", tech="deterministic simulation: model-based lifecycle histories (vacuum events) on the simulated disk",
    text="vacuum(path) on a closed database as a lifecycle event inside L1 histories, followed by open, dump, more writes, reopen, dump; vacuum must succeed and all dumps equal the model.", ref="§3 C28"),
+
+ "C35": dict(cat="exploration", tech="deterministic simulation: seeded cooperative scheduler with exact all-threads-blocked detection, lock-order graph as evidence",
+   text="2-5 threads with PRNG mixes of transactions, compaction, index creation, snapshot reads, index lookups, statistics reads, vector insertion/search and new-label creation; a violation is the exact deadlock condition (every unfinished thread parked on a lock) or no completion within the step cap; the observed lock-order graph with gate locks is reported in the evidence.", ref="§3 C35"),
 }
 
 def head(repo):
